@@ -559,4 +559,16 @@ mutual
       ((k, c.1) :: r.1, prefixKey k c.2.1 ++ r.2.1, c.2.2 ++ r.2.2)
 end
 
+/-- A read of the derived facts of the node at `p` only (the harness chooses which nodes it reads
+and when): the accessor answers from the node's memo or recomputes from its children's answers,
+memoising the whole subtree below `p` on the way (`sym_nondefault` of a schema-less container
+recurses into its symbolic children); nothing outside the subtree is touched. Returns the new tree
+and the value read at `p`. -/
+def readAt (root : T) (p : Path) : T × Option LeafMap :=
+  match getAt root p with
+  | none => (root, none)
+  | some n =>
+    let r := readAll p n
+    (mapAt (fun _ => r.1) root p, some r.2.1)
+
 end Pg.C09
